@@ -62,7 +62,14 @@ pub enum DiskFault {
 
 #[derive(Clone, Debug, PartialEq, Eq, Serialize, Deserialize)]
 pub enum Event {
-    Build { node: u8, slot: u8, calls: Vec<BCall> },
+    Build {
+        node: u8,
+        slot: u8,
+        calls: Vec<BCall>,
+        /// the same builder first builds with this other key of the node (result discarded)
+        #[serde(default)]
+        reuse: Option<u8>,
+    },
     Op { node: u8, slot: u8, op: Op },
     ArmSigner { node: u8, slot: u8, nth: u64 },
     /// fail exactly the at-th signing call (counted from the start of the run) of that key
@@ -467,10 +474,10 @@ impl World {
         self.cx.stat(&format!("event:{}", ev.name()));
         self.cx.log(&format!("EV {}", ev.name()));
         match ev {
-            Event::Build { node, slot, calls } => {
+            Event::Build { node, slot, calls, reuse } => {
                 if let Some(n) = self.node(*node) {
                     if !self.crashed[n] {
-                        self.nodes[n].build(calls, *slot, &mut self.cx);
+                        self.nodes[n].build(calls, *slot, *reuse, &mut self.cx);
                     }
                 }
             }
